@@ -1,7 +1,7 @@
 """C35 - cqlengine persistence (narrow): key-selection flags, name-kind agreement, deletion predicate."""
 import ast
 
-from ..core import AnalysisError, src, body_walk, walk_no_nested, qual_of
+from ..core import AnalysisError, src, body_walk, walk_no_nested, qual_of, parent
 from ..cfg import CFG, Flow
 from ..guards import tri_eval
 
@@ -19,8 +19,10 @@ def check(chk):
     chk.rule('C35.names', 'names given to DeleteStatement/add_field/updated_columns/nulled_columns and compared with condition.field are db_field_name')
     chk.rule('C35.deleted', 'ValueManager.deleted: null now and (explicitly set or previously non-null)')
     chk.rule('C35.flow', 'save(): insert unless empty, then delete nulled columns unless static-only; update(): delete nulled columns unless the clustering key is null')
+    chk.rule('C35.snapshot', 'previous_value is a snapshot: it is assigned None, a number, or a copy (deepcopy / copy) of the current value - never the live value object itself, or in-place edits of collections compare equal and are not written')
     q = chk.repo.mod(Q)
     cols = chk.repo.mod(COLS)
+    _snapshot_rule(chk, cols)
     dn = q.func('DMLQuery._delete_null_columns')
     upd = [n for n in body_walk(dn) if isinstance(n, (ast.AugAssign, ast.Assign)) and src(n.targets[0] if isinstance(n, ast.Assign) else n.target) == 'static_only']
     inits = [n for n in upd if isinstance(n, ast.Assign)]
@@ -104,3 +106,28 @@ def check(chk):
               'update(): UPDATE when there are assignments; nulled columns deleted unless the clustering key is null', 'update flow changed')
     dl = q.func('DMLQuery.delete')
     chk.judge('if val is None and (not col.partition_key)' in src(dl) and 'self.model._primary_keys.items()' in src(dl), 'C35.flow', dl, 'delete(): all primary keys, skipping null clustering keys', 'delete key selection changed')
+
+
+def _snapshot_rule(chk, cols):
+    n = 0
+    for q, f in cols.functions():
+        for st in body_walk(f):
+            if isinstance(st, ast.Assign) and any(isinstance(t, ast.Attribute) and t.attr == 'previous_value' for t in st.targets):
+                n += 1
+                v = st.value
+                live = [x for x in ast.walk(v) if isinstance(x, ast.Attribute) and x.attr == 'value' and not _under_copy(x, v)]
+                chk.judge(not live, 'C35.snapshot', st, '%s: %s' % (q, src(st)),
+                          'previous_value becomes the same object as value: after a save/load, an in-place change of a collection column (add, append, item assignment) leaves value == previous_value, so no CQL is emitted and the row silently diverges from the instance')
+    if n < 3:
+        raise AnalysisError('C35.snapshot: writers of previous_value not found (%d)' % n)
+
+
+def _under_copy(node, root):
+    p = parent(node)
+    while p is not None:
+        if isinstance(p, ast.Call) and src(p.func) in ('deepcopy', 'copy', 'copy.deepcopy', 'copy.copy', 'list', 'dict', 'set', 'tuple'):
+            return True
+        if p is root:
+            break
+        p = parent(p)
+    return False
